@@ -477,6 +477,9 @@ func (c *ByteConverter) To(obj Object) (interface{}, error) {
 	case *Byte:
 		return obj.value, nil
 	case *Int:
+		if obj.value < 0 || obj.value > math.MaxUint8 {
+			return nil, intOutOfRange(obj.value, "byte")
+		}
 		return byte(obj.value), nil
 	case *Float:
 		return byte(obj.value), nil
@@ -501,6 +504,9 @@ func (c *RuneConverter) To(obj Object) (interface{}, error) {
 		r, _ := utf8.DecodeRuneInString(obj.value)
 		return r, nil
 	case *Int:
+		if obj.value < math.MinInt32 || obj.value > math.MaxInt32 {
+			return nil, intOutOfRange(obj.value, "rune")
+		}
 		return rune(obj.value), nil
 	default:
 		return nil, errz.TypeErrorf("type error: expected string (%s given)", obj.Type())
